@@ -24,6 +24,7 @@ class Recorder(object):
     """reporter class handed to doit; records in class attributes (parent process, main thread)"""
     log = []
     events = {}
+    values = {}
 
     def __init__(self, outstream, options):
         pass
@@ -38,6 +39,7 @@ class Recorder(object):
         Recorder.log.append(['execute', task.name])
 
     def _outs(self, task):
+        Recorder.values[task.name] = actlib.canon_vals(dict(task.values))
         return [[a.out for a in task.actions], [a.err for a in task.actions]]
 
     def add_failure(self, task, fail):
@@ -81,9 +83,25 @@ def action_ids(case):
     return ids
 
 
+def tok_text(a, n, chan):
+    return ''.join(('[%d.%d]' if chan == 'o' else '{%d.%d}') % (a, k) for k in range(n))
+
+
+def cmd_script_of(a, spec):
+    """shell command of a cmd-action of a runner case: its tokens on stdout and stderr, then its exit status"""
+    n = spec.get('writes', 0)
+    return "printf %%s '%s'; printf %%s '%s' >&2; exit %d" % (tok_text(a, n, 'o'), tok_text(a, n, 'e'),
+                                                              0 if spec.get('end', 'true') == 'true' else 3)
+
+
 def make_action(case, ids, ti, ai, spec, hooks):
     a = ids[(ti, ai)]
     before, after_write = hooks.get((ti, ai), (None, None))
+    if spec.get('cmd'):
+        from doit.action import CmdAction
+        # (`%` is doubled: the command string goes through the old-style expansion)
+        so = actlib.KEYS[spec['save_out']] if spec.get('save_out') is not None else None
+        return CmdAction(cmd_script_of(a, spec).replace('%', '%%'), save_out=so)
 
     def fn():
         if before is not None:
@@ -99,6 +117,8 @@ def make_action(case, ids, ti, ai, spec, hooks):
             raise ValueError('action %d raises' % a)
         if e == 'str':
             return 'res%d' % a
+        if e == 'dict':
+            return {actlib.KEYS[spec.get('key', 0)]: a}
         return True
     fn.__name__ = 'act_%d_%d' % (ti, ai)
     return fn
@@ -111,6 +131,7 @@ def run_runner(case):
     ids = action_ids(case)
     Recorder.log = []
     Recorder.events = {}
+    Recorder.values = {}
     hooks = {}
     problems = []
     if case['mode'] == 'forced':
@@ -128,7 +149,16 @@ def run_runner(case):
     ns = {}
     for ti, t in enumerate(case['tasks']):
         acts = [make_action(case, ids, ti, ai, spec, hooks) for ai, spec in enumerate(t['actions'])]
-        d = {'actions': acts, 'verbosity': case.get('v', 0)}
+        d = {'actions': acts}
+        if 'tv' in t:
+            d['verbosity'] = t['tv']          # task-level verbosity (wins over the configured one)
+        if 'capture' in t:
+            d['io'] = {'capture': t['capture']}
+        if t.get('title') == 'custom':
+            d['title'] = lambda task: 'T<%s>' % task.name
+        elif t.get('title') == 'with_actions':
+            from doit import tools
+            d['title'] = tools.title_with_actions
         if case['mode'] == 'chain' and ti > 0:
             d['task_dep'] = ['t%d' % (ti - 1)]
 
@@ -139,6 +169,13 @@ def run_runner(case):
                          'verbosity': case.get('v', 0), 'continue': True}
     argv = ['run']
     json_path = None
+    report_path = None
+    if case.get('reporter') == 'console':
+        # the built-in console reporter writing into a file: titles, and the captured out/err of failed tasks
+        del ns['DOIT_CONFIG']['reporter']
+        report_path = os.path.join(work, 'report.txt')
+        argv += ['-o', report_path]
+        ns['DOIT_CONFIG']['failure_verbosity'] = case.get('fv', 0)
     if case.get('reporter') == 'json':
         # doit's own JSON reporter: it swaps sys.stdout/sys.stderr for the whole run and must give them back,
         # also when the run is aborted mid-task or the report cannot be written
@@ -170,6 +207,10 @@ def run_runner(case):
         except BaseException as ex:  # noqa
             raised = '%s: %s' % (type(ex).__name__, str(ex)[:200])
         ident = sw.identity()
+    report = None
+    if report_path and os.path.exists(report_path):
+        with open(report_path, encoding='utf-8', errors='replace') as f:
+            report = f.read()
     doc = None
     if json_path and json_path != '/dev/full' and os.path.exists(json_path):
         import json as _json
@@ -210,13 +251,17 @@ def run_runner(case):
                 a = ids[(ti, ai)]
                 outs[str(a)] = actlib.toks(o[ai] if ai < len(o) else None, 'o')
                 errs[str(a)] = actlib.toks(e[ai] if ai < len(e) else None, 'e')
+    if case.get('reporter') == 'console':
+        return {'code': code, 'raised': raised, 'restored': ident, 'report': report, 'problems': problems,
+                'order': [], 'reported': {}, 'out': {}, 'err': {}, 'O': actlib.toks(sw.O.getvalue(), 'o'),
+                'E': actlib.toks(sw.E.getvalue(), 'e'), 'runtime_errors': []}
     if case.get('reporter') == 'json':
         return {'code': code, 'raised': raised, 'restored': ident, 'order': order, 'reported': reported,
                 'out': outs, 'err': errs, 'O': actlib.toks(sw.O.getvalue(), 'o'), 'E': actlib.toks(sw.E.getvalue(), 'e'),
                 'problems': problems, 'runtime_errors': [], 'json_document': doc is not None}
     return {'code': code, 'raised': raised, 'restored': ident, 'order': order, 'reported': reported,
             'out': outs, 'err': errs, 'O': actlib.toks(sw.O.getvalue(), 'o'), 'E': actlib.toks(sw.E.getvalue(), 'e'),
-            'problems': problems,
+            'problems': problems, 'values': dict(Recorder.values),
             'runtime_errors': [r for r in Recorder.log if r[0] in ('runtime_error', 'cleanup_error')]}
 
 
@@ -248,5 +293,32 @@ def runner_evs(case, order):
     evs = []
     for ti in order:
         for ai in ran_actions(case, ti):
-            evs += block(ti, ai)
+            # only python-actions with capture on swap the streams
+            if captured(case, ti) and not case['tasks'][ti]['actions'][ai].get('cmd'):
+                evs += block(ti, ai)
     return evs
+
+
+def captured(case, ti):
+    return bool(case['tasks'][ti].get('capture', True))
+
+
+def task_verbosity(case, ti):
+    t = case['tasks'][ti]
+    return t['tv'] if t.get('tv') is not None else case.get('v', 0)
+
+
+def expected_action(case, ti, ai):
+    """(captured out tokens | None, captured err tokens | None, shown-live out tokens, shown-live err tokens)"""
+    ids = action_ids(case)
+    a = ids[(ti, ai)]
+    spec = case['tasks'][ti]['actions'][ai]
+    toks = [[a, k] for k in range(spec.get('writes', 0))]
+    cap = captured(case, ti)
+    tv = task_verbosity(case, ti)
+    if spec.get('cmd'):
+        # capture None: /dev/null (capture False is not generated for cmd-actions: Popen needs real descriptors)
+        return (toks, toks, toks if tv == 2 else [], toks if tv >= 1 else []) if cap else (None, None, [], [])
+    if cap:
+        return toks, toks, toks if tv == 2 else [], toks if tv >= 1 else []
+    return None, None, toks, toks
